@@ -96,11 +96,11 @@ Proof.
     { destruct (parse_alpn alpn) as [|x l] eqn:Ep; [reflexivity|].
       destruct (parsed_nonempty_max (x :: l)) as [p Hp]; [discriminate|]. congruence. }
     rewrite Hp in Eu. cbn [is_nil andb] in Eu. apply negb_false_iff in Eu. rewrite Eu. reflexivity. }
+  destruct (alt_lookup sni (c_main c) 0).
+  { cbn [respects_enabled]. rewrite tunnel_proto_spec. reflexivity. }
   destruct (match split_dot sni with
             | Some (a, b) => match index_of b (main_names c) 0 with Some i => Some (i, a) | None => None end
-            | None => None end) as [[i a]|].
-  { cbn [respects_enabled]. rewrite tunnel_proto_spec. reflexivity. }
-  destruct (alt_lookup sni (c_main c) 0); [|reflexivity].
+            | None => None end) as [[i a]|]; [|reflexivity].
   cbn [respects_enabled]. rewrite tunnel_proto_spec. reflexivity.
 Qed.
 
